@@ -204,10 +204,15 @@ class PreemptibleResource(Entity):
             return future
 
         # Try preemption
+        freed = 0
         if preempt:
-            self._try_preempt(amount, priority)
+            freed = self._try_preempt(amount, priority)
             if self._available >= amount:
                 self._grant_immediate(future, amount, priority, on_preempt)
+                if freed:
+                    # A victim may have held more than this request takes:
+                    # hand the surplus to the queue instead of leaving it idle.
+                    self._wake_waiters()
                 return future
 
         # Must wait
@@ -221,6 +226,10 @@ class PreemptibleResource(Entity):
         )
         self._insert_counter += 1
         heapq.heappush(self._waiters, waiter)
+        if freed:
+            # Preemption freed capacity that is not enough for this request;
+            # the head of the queue (possibly another waiter) may fit it.
+            self._wake_waiters()
 
         logger.debug(
             "[%s] Queued acquire(%d, priority=%.1f), waiters=%d",
